@@ -9,7 +9,9 @@
 
 mod fw;
 mod refeval;
+mod c01;
 mod c02;
+mod x86native;
 mod c03;
 mod mipsref;
 mod ppcref;
@@ -41,6 +43,7 @@ use std::time::{Duration, Instant};
 
 fn make_check(prop: &str, tier: Tier) -> Option<Box<dyn Check>> {
     Some(match prop {
+        "C01" => Box::new(c01::C01::new(tier)),
         "C02" => Box::new(c02::C02::new(tier)),
         "C03" => Box::new(c03::C03::new(tier)),
         "C04" => Box::new(c04::C04::new(tier)),
